@@ -294,8 +294,11 @@ func (p *Policy) sanitize(r io.Reader, w io.Writer) error {
 
 			if len(token.Attr) == 0 {
 				if !p.allowNoAttrs(token.Data) {
-					skipClosingTag = true
-					closingTagToSkipStack = append(closingTagToSkipStack, token.Data)
+					if !isVoidElement(token.Data) {
+						// a void element has no closing tag to skip
+						skipClosingTag = true
+						closingTagToSkipStack = append(closingTagToSkipStack, token.Data)
+					}
 					if p.addSpaces {
 						if _, err := buff.WriteString(" "); err != nil {
 							return err
@@ -894,6 +897,17 @@ decLoop:
 		attr.Val = ""
 	}
 	return attr
+}
+
+// isVoidElement reports whether elementName is an HTML void element, i.e. one
+// that never has an end tag.
+func isVoidElement(elementName string) bool {
+	switch elementName {
+	case "area", "base", "br", "col", "embed", "hr", "img", "input", "link",
+		"meta", "param", "source", "track", "wbr":
+		return true
+	}
+	return false
 }
 
 func (p *Policy) allowNoAttrs(elementName string) bool {
